@@ -11,7 +11,7 @@
    rotation up to the per-address limit (C28: at most MaxHostInfosPerVpnIp = 5 tunnels per address). *)
 From Coq Require Import List NArith.
 Import ListNotations.
-From NV Require Import model.HostMap model.HsMgr proofs.HsMgr_inv proofs.HsMgr_props.
+From NV Require Import model.HostMap model.HsMgr proofs.HsMgr_inv proofs.HsMgr_props proofs.HsMgr_hist.
 Open Scope N_scope.
 
 (* Re-delivering a stage 1 whose payload equals the stage-0 packet kept by a tunnel [h] still held for the first
@@ -34,6 +34,25 @@ Theorem C10_replay_noop : forall cfg ops pkt cs ridx t a0 rest v h,
     snd r = pre ++ [OStage2 x v] /\ (pre = [] \/ exists q u, pre = [OTest q u]).
 Proof. exact replay_noop. Qed.
 Print Assumptions C10_replay_noop.
+
+(* The same over histories: a stage 1 that was accepted - it created tunnel [id] (the log grew by its entry) - is
+   delivered again, from any sender and with any index candidates, after ANY continuation [ops2] (further
+   handshakes and re-handshakes, rotation, deletes, promotions, timeouts ...), while tunnel [id] is still in
+   Indexes: the hostmap state is unchanged, nothing is created or logged, and the stored reply of a held tunnel
+   with this payload is resent, preceded by at most one test request. *)
+Theorem C10_replay_history : forall cfg ops1 ops2 pkt cs ridx t a0 rest v id cs2 ridx2 t2 v2,
+  let s1 := hrun cfg hinit ops1 in
+  let r1 := hstep cfg (RespStage1 pkt cs ridx t (a0 :: rest) v) s1 in
+  log (fst r1) = log s1 ++ [mkEv id false pkt t (a0 :: rest) None] ->
+  let s2 := hrun cfg (fst r1) ops2 in
+  (exists hi, mget id (infos (hm s2)) = Some hi /\ mget (hi_local hi) (idx (hm s2)) = Some id) ->
+  gen_index cs2 <> None ->
+  exists x pre, In x (get_list (hm s2) a0) /\ seen s2 pkt x = true /\
+    let r := hstep cfg (RespStage1 pkt cs2 ridx2 t2 (a0 :: rest) v2) s2 in
+    hm (fst r) = hm s2 /\ nxt (fst r) = nxt s2 /\ log (fst r) = log s2 /\
+    snd r = pre ++ [OStage2 x v2] /\ (pre = [] \/ exists q u, pre = [OTest q u]).
+Proof. exact replay_history. Qed.
+Print Assumptions C10_replay_history.
 
 (* A stage 1 whose peer-reported time is not newer than that of the primary tunnel for its first certificate
    address, when the node accepted that tunnel as responder, never replaces it: in every state the hostmap state
